@@ -419,6 +419,8 @@ func Maps() map[string]interface{} {
 		"ifk": map[interface{}]int{"x": 1, struct{ A int }{1}: 2, 5: 3, 2.5: 4, true: 5},
 		"ifl": []interface{}{"x", struct{ A int }{1}, 5, nil, 2.5},
 		"nk3": map[NString]interface{}{"a": ok(1), "b": er, "c": ok(2)},
+		"nat": map[string]interface{}{"007": er, "7": ok(2), "1": ok(1), "01": er, "10": ok(2), "9": ok(1)},
+		"m3e": map[string]interface{}{"a": ok(1), "b": er},
 	}
 }
 
@@ -433,6 +435,7 @@ func MapsB() map[string]interface{} {
 	d["ok3"] = map[string]interface{}{"a": ok(2)}
 	d["ms"] = map[string]string{"z": "x"}
 	d["keys"] = []int{1, 2}
+	d["top"] = 6
 	return d
 }
 
@@ -446,14 +449,18 @@ func Deep() map[string]interface{} {
 	d := map[string]interface{}{"d": map[string]interface{}{"e": l(), "f": f["f"], "ee": e}}
 	return map[string]interface{}{"a": map[string]interface{}{"b": map[string]interface{}{"c": l(), "cc": d, "c2": map[string]interface{}{"d": d["d"]}}},
 		"s": "scalar", "m": map[string]interface{}{"s": "x"}, "m3": map[string]interface{}{"a": 1, "b": 2, "c": 3},
-		"l": []interface{}{[]interface{}{1, 2}, []interface{}{3}}, "st": struct{ A int }{1}, "u_str": "unk", "X": 1, "Y": "b", "Tags": []string{"t1", "t2"}}
+		"l": []interface{}{[]interface{}{1, 2}, []interface{}{3}}, "st": struct{ A int }{1}, "u_str": "unk", "X": 1, "Y": "b", "Tags": []string{"t1", "t2"},
+		"big": func() []int { b := make([]int, 70); b[69] = 39; return b }(), "num": 1}
 }
 
 // Deep2 has the shape of Deep with other contents.
 func Deep2() map[string]interface{} {
 	d := Deep()
-	d["a"].(map[string]interface{})["b"].(map[string]interface{})["c"] = []interface{}{map[string]interface{}{"x": 1, "y": 2}, map[string]interface{}{"x": 7, "y": 7}}
+	d["a"].(map[string]interface{})["b"].(map[string]interface{})["c"] = []interface{}{map[string]interface{}{"x": 1.0, "y": uint8(2)}, map[string]interface{}{"x": int8(7), "y": 7.5}}
 	d["s"] = "other"
+	d["num"] = 1.0
+	d["X"] = uint8(1)
+	d["big"] = func() []interface{} { b := make([]interface{}, 90); b[89] = 39.0; return b }()
 	d["m3"] = map[string]interface{}{"z": 1}
 	d["l"] = []interface{}{[]interface{}{5}}
 	return d
